@@ -135,6 +135,16 @@ def job(payload):
             if rng.random() < 0.5:
                 frag = ("infix", ("read", nm), rng.choice(["==", "!=", "<", ">"]), ("cat", [("let", (nm,), ("int", b, "dec")), ("read", nm)]))
             prog = ("cat", [("let", (nm,), ("int", a, "dec")), frag, ("read", nm), prog])
+        if rng.random() < 0.12:
+            # equal stacks in a row, and stacks equal but for a bound name that a condition reads (see C01's twins)
+            from vf.props import c01
+            tprog, tstacks = c01.twin_case(rng, {"maxdepth": 3})
+            prog = ("cat", [("alt", [("cat", list(st)) for st in tstacks]), tprog])
+        elif rng.random() < 0.1:
+            # ?( ) / !( ) around a body of assertions only, some of which do not apply to the value at hand
+            from vf.props import c04
+            vals = rng.sample([("int", 1, "dec"), ("int", 2, "dec"), ("str", [b"x"]), ("str", [b"a("]), ("elist",), ("cap", (), ("int", 1, "dec"))], 3)
+            prog = ("cat", [("alt", vals), ("sub", rng.random() < 0.6, (), c04.assertion_body(rng, rng.randint(1, 2)))])
         t0 = zast.text(prog)
         out["n"] += 1
         try:
